@@ -381,6 +381,14 @@ func (e *kvElection) becomeLeader(token string, rev uint64) {
 		return
 	}
 
+	if e.isLeader.Load() {
+		// Two acquisition attempts of this instance were in flight and both succeeded (the
+		// record vanished in between). Keep the running term: a second promotion would hand out
+		// a second token and OnPromote without a demotion. The heartbeat of the running term
+		// finds out whether it still owns the record.
+		return
+	}
+
 	fromState := StateInit
 	if s := e.state.Load(); s != nil {
 		if str, ok := s.(string); ok {
